@@ -4,9 +4,9 @@
 //     -> <tid>:<pos>:<assoc> ...      the library's own lookup tables (hook
 //        Ports::verif_tables) per table, preorder
 //   disp <tree> <address hex> <types hex> ...
-//     -> L <events> m=<matches> loc=<loc> | N <events> m=<matches> | R <tid>=<remap>;... T=<ok|DIFF>
+//     -> L <events> m=<matches> obj=<d.obj after> loc=<loc> | N <events> m=<matches> obj=<d.obj after> | R <tid>=<remap>;... T=<ok|DIFF>
 //        L: root dispatch with a location buffer, N: without.  One event per
-//        callback:  <tid>:<idx>@<msg offset>/<obj>/<loc hex or ~>/<d.port is this port>
+//        callback:  <tid>:<idx>@<msg offset>/<obj>/<loc hex or ~>/<d.port is this port>/<L leaf | I inner>
 //        default handler: D<tid>@<msg offset>/<obj>/<loc>
 //        T=ok iff the pos/assoc written in the case line are the library's
 //
@@ -49,7 +49,8 @@ struct Dyn : Ports {
                 [self, id, sub](const char *msg, RtData &d) {
                     std::ostringstream o;
                     o << self->tid << ":" << id << "@" << (msg - g_msg_base) << "/" << (long)(intptr_t)d.obj
-                      << "/" << lochex(d.loc) << "/" << (d.port == &self->ports[id] ? 1 : 0);
+                      << "/" << lochex(d.loc) << "/" << (d.port == &self->ports[id] ? 1 : 0)
+                      << "/" << (self->ports[id].ports ? "I" : "L");
                     g_log->push_back(o.str());
                     if(sub) {
                         long n = 0;
@@ -142,7 +143,7 @@ static std::string run(Dyn *root, const std::vector<uint8_t> &msg, bool withloc)
     std::ostringstream o;
     for(size_t i = 0; i < log.size(); ++i) { if(i) o << ";"; o << log[i]; }
     if(log.empty()) o << "-";
-    o << " m=" << d.matches;
+    o << " m=" << d.matches << " obj=" << (long)(intptr_t)d.obj;
     if(withloc) o << " loc=" << lochex(loc);
     return o.str();
 }
